@@ -1,5 +1,6 @@
 import SwimVerif.Driver
 import SwimVerif.Model.ReconProto
+import SwimVerif.Model.ReconIncProto
 
 namespace SwimVerif.Machines.C09
 open SwimVerif
@@ -13,6 +14,15 @@ def c09 : Machine where
   minit := {}
   mstep := fun m line out => m.step line out
 
-def machines : List (String × Machine) := [("c09", c09)]
+/-- As `c09`, and `chunk` ops are answered by the model of the incremental decoders (`Model/ReconInc.lean`). -/
+def c09i : Machine where
+  σ := Unit
+  init := ()
+  step := fun s line => (s, ReconInc.apiLine line)
+  μ := Recon.Mon
+  minit := {}
+  mstep := fun m line out => m.step line out
+
+def machines : List (String × Machine) := [("c09", c09), ("c09i", c09i)]
 
 end SwimVerif.Machines.C09
